@@ -192,6 +192,11 @@ def check_one_omitted(P, chk):
     for roots, labs in q.variant_guards(b, cbb):
         if labs == ("None",) and any(r.kind == "agg" or (r.kind == "call" and r.name.endswith("Option::replace")) for r in roots):
             ok = True
+        # `match unfilled.as_ref().map(|t| *t.as_undecorated()) { None => check_balance(..), Some(i) => .. }`
+        if labs == ("None",) and any(r.kind == "call" and str(r.name).endswith("Option::map") and r.site is not None and
+                                     any(x.kind == "agg" and "Option::" in str(x.name) for x in prov(b, b.term(r.site)["args"][0]))
+                                     for r in roots):
+            ok = True
     chk.require(ok, R_ONE, "add_transaction|check_balance-only-without-unfilled", b.loc(cbb),
                 "check_balance is not confined to the branch where no posting was left unfilled",
                 "check_balance under unfilled == None")
